@@ -115,7 +115,8 @@ def model_parse(reply, n):
 LOCS = ['a/foo', 'a/foobar', 'a/foo/bar', 'a/foo/bar/baz', 'a/fo', 'a/b',
         'a b/c', 'ab/c', 'a', 'deep/er/and/deeper/x', 'a/foo bar', 'a/foo.txt',
         'A/foo', 'a/Foo', 'x', 'a/foo+bar', '..cache', '...', 'a/..foo/x',
-        'a/.hidden', 'a/b..c', '..a/b', 'a/...', '. /x', ]
+        'a/.hidden', 'a/b..c', '..a/b', 'a/...', '. /x', 'a/caf\u00e9',
+        '\u00fc/x', 'a/\u4e2d\u6587', ]
 
 
 def gen_nested_case(rng, index, tier):
@@ -318,6 +319,11 @@ def gen_case(rng, index, tier):
     case['overwrite'] = rng.random() < (0.6 if dup else 0.1)
     nin = len([e for e in entries if spec.in_scope('/' + e['loc'], '/' + sc if sc else '/')])
     case['reply'], case['rclass'] = gen_reply(rng, nin)
+    if rng.random() < 0.08:
+        # a terminal / locale that cannot show every name (PYTHONIOENCODING,
+        # legacy 8-bit locales): refusing to go on is fine, showing one thing
+        # and restoring another is not
+        case['stdout_encoding'] = rng.choice(['ascii', 'latin-1'])
     return case
 
 
@@ -423,13 +429,28 @@ def run_case(case):
             args.append(sc_abs + '/')
         s0 = putcheck.norm_sig(w.snapshot())
         reply = case['reply']
+        plan = {'stdout_encoding': case['stdout_encoding']} \
+            if case.get('stdout_encoding') else None
         r = run.run(w, 'restore', args, stdin=(reply + '\n').encode('utf-8'),
-                    cwd=cwd, contracts=ALLC)
+                    cwd=cwd, contracts=ALLC, plan=plan)
         s1 = putcheck.norm_sig(w.snapshot())
         if r.timeout or r.audit_ok() is False:
             out['verdict'] = 'inconclusive'
             out['why'] = 'watchdog' if r.timeout else 'audit mismatch'
             return out
+        if plan:
+            out['features'].append('stdout:' + case['stdout_encoding'])
+            obs['narrow_stdout_runs'] = 1
+            if 'UnicodeEncodeError' in r.errtext() and r.exit != 0:
+                # the listing could not be printed: nothing may have moved
+                obs['unprintable_listing_refused'] = 1
+                if s1 != s0:
+                    out['violations'].append({
+                        'mechanism': 'restored-something-after-unprintable-listing',
+                        'detail': {'run': r.brief()}})
+                out['nontrivial'] = False
+                out['verdict'] = 'violation' if out['violations'] else 'ok'
+                return out
         obs['e2e_runs'] = 1
         for k, n in r.ccounts.items():
             obs['c_' + k] = obs.get('c_' + k, 0) + n
@@ -444,7 +465,8 @@ def run_case(case):
 
         for c in r.contracts:
             viol('contract:' + c['contract'], contract=c)
-        lst = trashio.parse_restore_listing(r.outtext())
+        lst = trashio.parse_restore_listing(r.out.decode(
+            case.get('stdout_encoding') or 'utf-8', 'replace'))
         want = {}
         pool = []
         for e in ents:
